@@ -25,7 +25,7 @@ Next == \/ /\ l = 0 /\ sh = 0
            /\ sh' = sh
 
 AllRules == {"C03.Frame",
-             "C04.Accept", "C04.Reject", "C04.Effect",
+             "C04.Accept", "C04.Reject", "C04.Effect", "C04.Ticks", "C03.Ticks",
              "C05.NoPanic", "C05.Atomic", "C05.Valid", "C05.ExitCode",
              "C11.Style", "C11.Deterministic", "C11.Accepted",
              "C17.NoPanic", "C17.Time", "C17.Unrepresentable"}
@@ -119,6 +119,32 @@ StyleOK(cmd, cfg, M, PP, P, Q) ==
                 /\ \E A \in AddedAfterReplace(P, Q, lc, Len(P)) : A # <<>> /\ newEntry(A, M.t)
       [] OTHER -> TRUE
 
+(* pause sessions: the file after `pause` started and after every iteration of its loop.  After the *)
+(* k-th clock reading the pause entry is extended by the whole minutes elapsed so far (never reduced), *)
+(* only its duration token changes, nothing else in the file does                                     *)
+RECURSIVE MaxDiff(_, _)
+MaxDiff(ticks, k) == IF k = 0 THEN 0
+                     ELSE LET d == IF ticks[k] >= 0 THEN ticks[k] \div 60 ELSE 0 IN Max(d, MaxDiff(ticks, k - 1))
+PauseLoc(cmd, M, D1) == IF cmd.extend THEN [t |-> M.t, i |-> M.i]
+                        ELSE [t |-> M.t, i |-> Len(D1[M.t].entries)]
+TickDataOK(cmd, M, F, k) ==      \* F[1]: after start; F[k + 1]: after the k-th reading
+    LET P1 == ParseDoc(F[1])  Pk == ParseDoc(F[k + 1])
+        D1 == DocData(P1)  Dk == DocData(Pk)
+        loc == PauseLoc(cmd, M, D1)
+        e1 == D1[loc.t].entries[loc.i]
+    IN  /\ P1.ok /\ Pk.ok /\ Len(Dk) = Len(D1)
+        /\ \A t \in 1..Len(D1) : t # loc.t => Dk[t] = D1[t]
+        /\ SameHead(Dk[loc.t], D1[loc.t]) /\ Len(Dk[loc.t].entries) = Len(D1[loc.t].entries)
+        /\ \A i \in 1..Len(D1[loc.t].entries) : i # loc.i => Dk[loc.t].entries[i] = D1[loc.t].entries[i]
+        /\ LET x == Dk[loc.t].entries[loc.i] IN
+           x.kind = "dur" /\ x.summary = e1.summary /\ x.a = e1.a - MaxDiff(cmd.ticks, k)
+TickFrameOK(cmd, M, F, k) ==
+    LET P1 == ParseDoc(F[1])
+        loc == PauseLoc(cmd, M, DocData(P1))
+        lc == Loc(P1, loc.t, loc.i)
+        P == P1.lines  Q == SplitLines(F[k + 1])
+    IN  F[k + 1] = F[1] \/ (Len(Q) = Len(P) /\ FrameReplace(P, Q, lc.f, lc.f, lc.e.valFrom, lc.e.valTo, FALSE, Len(P), Len(P)))
+
 Holds(r, ev, PP, M) ==
     LET c == ev.case  o == ev.obs  cmd == ev.case.cmd  live == ev.panic = ""
         okPre == PP.status = "Conforming"
@@ -131,6 +157,13 @@ Holds(r, ev, PP, M) ==
       [] r = "C04.Reject" -> judged /\ M.st = "fail" => o.code # 0 /\ o.post = c.pre
       [] r = "C04.Effect" -> judged /\ M.st = "ok" /\ o.code = 0 /\ o.parsed_ok =>
             EffectOK(M, DocData(PP), FromObs(o.records))
+      [] r = "C04.Ticks" -> judged /\ cmd.op = "pause" /\ M.st = "ok" /\ o.code = 0 =>
+            LET F == o.tick_files IN
+            /\ Len(F) = Len(cmd.ticks) + 1
+            /\ F[Len(F)] = o.post
+            /\ \A k \in 1..Len(cmd.ticks) : TickDataOK(cmd, M, F, k)
+      [] r = "C03.Ticks" -> judged /\ cmd.op = "pause" /\ M.st = "ok" /\ o.code = 0 /\ Len(o.tick_files) = Len(cmd.ticks) + 1 =>
+            \A k \in 1..Len(cmd.ticks) : TickFrameOK(cmd, M, o.tick_files, k)
       [] r = "C05.NoPanic" -> ev.panic = ""
       [] r = "C05.Atomic" -> live /\ o.code # 0 => o.post = c.pre /\ ~o.touched
       [] r = "C05.Valid" -> live /\ o.code = 0 => o.parsed_ok /\ ParseDoc(o.post).status # "Violating"
